@@ -186,7 +186,8 @@ def run(chk, only=None):
             cells.append((scheme, nfff, target, proj, tmc))
         for ci, (scheme, nfff, target, proj, tmc) in enumerate(cells):
             tgt = TARGET_SPELLINGS[target]
-            obs = ["F2_total", "FL_charm"] if ci % 2 else ["F2_light", "XSHERANC_total"]
+            # full names, a bare kind (= kind_total) and a cross section: every admissible spelling must be echoed as given
+            obs = ["F2_total", "FL_charm", "F3"] if ci % 2 else ["F2_light", "XSHERANC_total", "FL"]
             cname = f"runner:{scheme}/NfFF={nfff}/target={tgt}/{proj}/TMC={tmc}"
             if not chk.mine(cname):
                 continue
